@@ -227,6 +227,13 @@ def truth(v):
     return True
 
 
+def unreborrow(t):
+    """`&*x` is `x` for a stored value that is itself a shared reference (MIR copies a `&'a T` by reborrowing it)"""
+    if t is not None and t[0] == 'ref' and not t[1] and t[2][0] == 'deref':
+        return t[2][1]
+    return t
+
+
 def parse_span(s):
     """'!file:l:c-l:c' -> (generated?, file, l1, c1, l2, c2)"""
     if s is None:
@@ -680,7 +687,7 @@ def check_into_inner(rep, g):
         return
     rep.bodies.add(fn['lid'])
     outs = g.paths(fn)
-    ok = len(outs) == 1 and outs[0].kind == 'return' and outs[0].ret == ('field', ('param', 1), 0) and not outs[0].conds
+    ok = len(outs) == 1 and outs[0].kind == 'return' and unreborrow(outs[0].ret) == ('field', ('param', 1), 0) and not outs[0].conds
     rep.ob('R-VIEW', ok, g, 'into_inner returns exactly the stored field', {'ret': [show(o.ret) for o in outs]})
 
 
@@ -1188,7 +1195,7 @@ def check_views(rep, g):
             continue
         rep.bodies.add(fn['lid'])
         ret = single_return(g.paths(fn))
-        rep.ob('R-VIEW', ret == ('field', ('param', 1), 0), g, 'Into: returns exactly the stored value', {'ret': show(ret) if ret else None})
+        rep.ob('R-VIEW', unreborrow(ret) == ('field', ('param', 1), 0), g, 'Into: returns exactly the stored value', {'ret': show(ret) if ret else None})
         rep.ob('R-VIEW', imp['self'] == inner_field_ty, g, 'Into: target is the inner type', {})
     # Display
     disp = [i for i in g.trait_impls('fmt::Display')]
